@@ -21,6 +21,9 @@ const defaultArgonKeyLen uint32 = 32
 // The largest memory parameter (in KiB) accepted from a stored hash: 4 GiB.
 const maxArgonMem uint32 = 4 * 1024 * 1024
 
+// Upper bound for the time parameter (number of passes) of a stored hash.
+const maxArgonTime uint32 = 1 << 10
+
 type PHC struct {
 	id      string
 	version int
@@ -135,6 +138,11 @@ func ParsePHC(s string) (*PHC, error) {
 	}
 	if memory == 0 || time == 0 || threads == 0 {
 		return nil, fmt.Errorf("missing required parameters m,t,p or zero values")
+	}
+	if time > maxArgonTime {
+		// Verifying makes t passes over the memory: 2^32 of them never end, and the login request
+		// that triggered it is never answered.
+		return nil, fmt.Errorf("t value too large: %d (at most %d)", time, maxArgonTime)
 	}
 	if memory > maxArgonMem {
 		// Verifying allocates m KiB at once; an allocation that cannot be met ends the process
